@@ -30,8 +30,9 @@ def run(report, index, tier):
         'the token regexes), and the semicolon-dropping contexts.')
     rule_skeleton(report, index, 'R02.1')
     guard_tokens(report, index, M, 'R02.6')
-    from . import c15
+    from . import c15, c14
     c15.rules(report, index)
+    c14.rules(report, index)
     from .arrays import array_rule
     array_rule(report, index, M, 'R02.1e', bound=8)
     E = FusionEngine(index)
@@ -42,6 +43,10 @@ def run(report, index, tier):
                     'no token fusion under minify(drop_semi=%s)' % drop,
                     handlers, handled)
     r023(report, index, E, M)
+    from .runs import uniformity_rule
+    uniformity_rule(report, M, E.T, 'R02.8', [
+        ('minify(drop_semi=%s)' % d, E.table('minify', drop_semi=d))
+        for d in (False, True)])
     from .c04 import r042
     r042(report, M.lexmodel, M.grammar.parser_module, 'R02.5')
     r024(report, index, E, M)
